@@ -137,10 +137,10 @@ PROPS = {
     "C04": dict(jobs=W([("plain", Q, 50), ("teardown", Q, 50)], [("plain", 40000, 90, 8), ("teardown", 40000, 90, 8)], [("teardown", 20000, 70, 2)]),
                 rule=W_RULE + "non-trivial (C04): an unsatisfied expectation whose mock died or was moved before its release, or that was named in an earlier report, reaches its end of life.",
                 assumptions=W_ASSUME + ["an expectation named only in a sequence report may or may not report its shortfall later (accepted both ways)"]),
-    "C05": dict(jobs=W([("seq", Q, 50), ("all", Q, 50)], [("seq", 40000, 90, 10), ("all", 40000, 90, 4), ("death", 40000, 90, 2)], [("seq", 20000, 70, 2)], fuzz=("seq", 4000, 120000), enum=("c05", (6, ["--N", "3", "--K", "1", "--len", "3"]), (16, ["--N", "3", "--K", "2", "--len", "5"]))),
+    "C05": dict(jobs=W([("seq", Q, 50), ("all", Q, 50)], [("seq", 40000, 90, 10), ("all", 40000, 90, 4), ("death", 40000, 90, 2)], [("seq", 20000, 70, 2)], fuzz=("seq", 4000, 120000), enum=("c05", (6, ["--N", "3", "--K", "1", "--len", "3", "--N2", "2", "--K2", "2", "--len2", "4"]), (16, ["--N", "3", "--K", "2", "--len", "5"]))),
                 rule=W_RULE + "Plus the exhaustive small scope (N<=3 participants, K sequences, all memberships/bounds/strings). non-trivial (C05): some step is ineligible when attempted, or a handler passes over pending (optional/satisfied) predecessors.",
                 assumptions=W_ASSUME),
-    "C06": dict(jobs=W([("seq", Q, 50), ("teardown", Q, 50)], [("seq", 40000, 90, 8), ("teardown", 40000, 90, 8)], [("seq", 20000, 70, 2)], enum=("c05", (6, ["--N", "3", "--K", "1", "--len", "3"]), (16, ["--N", "3", "--K", "2", "--len", "4"]))),
+    "C06": dict(jobs=W([("seq", Q, 50), ("teardown", Q, 50)], [("seq", 40000, 90, 8), ("teardown", 40000, 90, 8)], [("seq", 20000, 70, 2)], enum=("c05", (6, ["--N", "3", "--K", "1", "--len", "3", "--N2", "2", "--K2", "2", "--len2", "4"]), (16, ["--N", "3", "--K", "2", "--len", "4"]))),
                 rule=W_RULE + "Plus the exhaustive small sequence scope shared with C05. non-trivial (C06): is_completed() changes value at least twice, or a sequence object is destroyed with >= 1 pending participant.",
                 assumptions=W_ASSUME + ["a destruction monitor whose object died but that is not yet released may or may not be listed at sequence teardown"]),
     "C07": dict(jobs=W([("forbid", Q, 50), ("overlap", Q, 50)], [("forbid", 40000, 90, 10), ("overlap", 40000, 90, 6)], [("forbid", 20000, 70, 2)]),
